@@ -234,7 +234,9 @@ def run_C04(tier, seed):
                  "not answer Ok(true) (false / Err / open failure are fine; a crash counts as 'no success' and is C06's subject). Plus the "
                  "pristine clause: every specimen and a set of freshly generated containers (3 packagings x all codecs) must check true, "
                  "also when four threads check one shared opened container / file at once, and through `jbk check`; `jbk check` of the "
-                 "damaged file must not say ok either. "
+                 "damaged file must not say ok either; every third alteration inside the hashed range of a content pack is also made in "
+                 "place under a container, a file and a content pack that were opened and had checked true before: asked again, none "
+                 "may still answer true. "
                  "Non-trivial = the damage changed >= 1 covered byte. Distinct = (specimen, file, damage).",
                  ["which bytes a checksum covers comes from the independent decoder (harness/src/indep.rs)"])
     for profile in ("debug", "release"):
